@@ -77,7 +77,18 @@ type pred struct {
 }
 
 func mkPred(r *gen.Rand) pred {
-	switch r.Intn(6) {
+	switch r.Intn(7) {
+	case 6:
+		// reports "done" together with an error while the length is inside a window
+		T := r.Intn(600)
+		lo := r.Intn(500)
+		hi := lo + 1 + r.Intn(300)
+		return pred{fmt.Sprintf("len >= %d, and (done, error) while %d <= len < %d", T, lo, hi), func(b []byte) (bool, error) {
+			if len(b) >= lo && len(b) < hi {
+				return true, errPred
+			}
+			return len(b) >= T, nil
+		}}
 	case 0:
 		return pred{"never done", func(b []byte) (bool, error) { return false, nil }}
 	case 1:
@@ -198,6 +209,14 @@ func history(c *mon.Ctx, r *gen.Rand) {
 					events["predicate_error"] = true
 					if err != wantErr {
 						fail("predicate-error-not-propagated", fmt.Sprintf("the predicate failed on the %d accumulated bytes but WritePacket returned %v", len(mbytes), err))
+						return
+					}
+					if wantDone {
+						// "done" reported together with an error: whether the accumulator completes is not stated; stop here
+						events["predicate_done_with_error"] = true
+						for k := range events {
+							c.Count("event." + k)
+						}
 						return
 					}
 				case wantDone:
